@@ -23,7 +23,10 @@ LEVEL = "exploration"
 SHARDS = {"quick": 8, "thorough": 16}
 TIMEOUT_S = {"quick": 600, "thorough": 3000}
 BUDGET_S = {"quick": 120, "thorough": 1500}
-RULE = ("sequences of 120-300 datagrams through 2 associations x 2 sessions x up to 3 regions (distinct IPs and the "
+RULE = ("Round 8: before its session is claimed an association also gets datagrams from the simulator side (a UseCircuitCode naming either pending session included) - discarded, "
+        "nothing left behind; a third of the sequences run with USE_VIEWER_OBJECT_CACHE on and a viewer cache directory in one of 11 states (healthy, .slc cut mid-entry / "
+        "in a header / empty / missing / negative count, index cut / garbage / empty, region not listed) and each region's RegionHandshake must still be delivered. "
+        "sequences of 120-300 datagrams through 2 associations x 2 sessions x up to 3 regions (distinct IPs and the "
         "everything-on-one-IP layout): valid messages of every template in both directions on open circuits, interleaved with "
         "random bytes, truncations, bad rsv/frag/address-type/short SOCKS headers, unknown hosts, unregistered circuits, "
         "pre-session traffic, UDP-banned names, duplicate UseCircuitCode, circuit close and re-open. quick 8 x 10 sequences, "
@@ -39,7 +42,7 @@ ASSUMPTIONS = [
     "valid datagram",
     "content intact = same message name, blocks/values, flags, packet id and acks after decoding both sides",
 ]
-MUST_REACH = {"valid_out_delivered": 300, "valid_in_delivered": 300, "garbage_datagrams": 300, "templates_covered": 300,
+MUST_REACH = {"region_handshakes_with_viewer_object_cache_enabled": 20, "viewer_object_cache_consulted_at_region_hello": 20, "valid_out_delivered": 300, "valid_in_delivered": 300, "garbage_datagrams": 300, "templates_covered": 300,
               "discard_random": 20, "discard_truncated": 20, "discard_unknown_host": 10, "discard_unregistered_circuit": 10,
               "discard_banned": 5, "discard_bad_socks": 20, "discard_presession": 5, "reopened_circuits": 3, "closing_messages_checked": 3, "sessions_claimed_out_of_login_order": 2, "sequences_deferred_parsing": 5, "sequences_eager_parsing": 5,
               "same_ip_sequences": 2, "multi_region_deliveries": 50,
@@ -123,12 +126,14 @@ def _inspected_content(rng, name, spec):
                     e["Message"] = ["s", rng.choice(["/524 help", "@version=1", "/me waves", "", "/524", "/1 x"])]
 
 
-def make_valid(rng, templates, direction_in, packet_id, ctx=None):
+def make_valid(rng, templates, direction_in, packet_id, ctx=None, only=None):
     """A template-conformant datagram (reference-encoded) that the proxy has no reason to claim."""
     by_name = {t.name: t for t in templates}
     for _ in range(50):
         tmpl = rng.choice(templates)
-        if rng.random() < 0.12:
+        if only:
+            tmpl = by_name[only]
+        elif rng.random() < 0.12:
             # the handful of messages the proxy reads on the way through get their share of the traffic
             tmpl = by_name.get(rng.choice(["ChatFromSimulator", "RegionHandshake", "AgentDataUpdate", "AgentMovementComplete"]
                                           if direction_in else ["ChatFromViewer", "AgentUpdate", "CompleteAgentMovement"]), tmpl)
@@ -164,6 +169,62 @@ def make_valid(rng, templates, direction_in, packet_id, ctx=None):
     raise RuntimeError("could not build a valid datagram")
 
 
+VOCACHE_VARIANTS = ["healthy", "slc-cut-mid-entry", "slc-cut-in-entry-header", "slc-cut-in-file-header", "slc-empty", "slc-missing",
+                    "index-cut", "index-garbage", "index-empty", "slc-count-negative", "region-not-listed"]
+_VOCACHE_HOMES = {}
+
+
+def vocache_home(variant):
+    """A home directory with one viewer's object cache for the grid squares the sequences' regions live in - in good shape or
+    damaged in one way (viewers crash while writing these files). Written once per process from the format description
+    (hv/vocache_fs.py), removed at exit."""
+    if variant not in _VOCACHE_HOMES:
+        import atexit
+        import os
+        import shutil
+        import tempfile
+        import uuid
+        from ..vocache_fs import write_viewer_dir, slc_bytes
+        home = tempfile.mkdtemp(prefix="hvc06_")
+        atexit.register(shutil.rmtree, home, ignore_errors=True)
+        handles = [(1000 << 32) | 1000, (1001 << 32) | 1000, (2000 << 32) | 1001, (2000 << 32) | 1002, (2001 << 32) | 1001]
+        entries = [(5, 77, b"x" * 40), (6, 78, b"y" * 300), (7, 79, b"z" * 17)]
+        cid = uuid.UUID(int=0xC0FFEE)
+        vdir = os.path.join(home, ".secondlife")
+        listed = handles if variant != "region-not-listed" else [(9000 * 256) << 32 | (9000 * 256)]
+        write_viewer_dir(vdir, {h: (cid, entries) for h in listed})
+        oc = os.path.join(vdir, "objectcache")
+        whole = slc_bytes(cid, entries)
+        slcs = [f for f in os.listdir(oc) if f.endswith(".slc")]
+        if variant == "region-not-listed":
+            for h in handles:
+                with open(os.path.join(oc, "objects_%d_%d.slc" % ((h >> 32) // 256, (h & 0xFFFFFFFF) // 256)), "wb") as f:
+                    f.write(whole[:33])
+        cut = {"slc-cut-mid-entry": whole[:16 + 4 + 24 + 11], "slc-cut-in-entry-header": whole[:16 + 4 + 24 + 40 + 9],
+               "slc-cut-in-file-header": whole[:9], "slc-empty": b"", "slc-count-negative": slc_bytes(cid, entries, declared=-3)}
+        for fn in slcs:
+            path = os.path.join(oc, fn)
+            if variant in cut:
+                with open(path, "wb") as f:
+                    f.write(cut[variant])
+            elif variant == "slc-missing":
+                os.unlink(path)
+        idx = os.path.join(oc, "object.cache")
+        if variant == "index-cut":
+            with open(idx, "rb") as f:
+                data = f.read()
+            with open(idx, "wb") as f:
+                f.write(data[:8 + 16 * 3 + 5])
+        elif variant == "index-garbage":
+            with open(idx, "wb") as f:
+                f.write(b"\x0f\x00\x00\x00\x40\x00\x00\x00" + bytes(range(256)) * 9)
+        elif variant == "index-empty":
+            with open(idx, "wb") as f:
+                f.write(b"")
+        _VOCACHE_HOMES[variant] = home
+    return _VOCACHE_HOMES[variant]
+
+
 def use_circuit_code(session, packet_id):
     from hippolyzer.lib.base.message.message import Message, Block
     from hippolyzer.lib.base.message.udpserializer import UDPMessageSerializer
@@ -187,14 +248,30 @@ def run_sequence(ctx, seq_seed, same_ip):
     # both parsing configurations of the proxy's deserializer: bodies parsed on demand (default) or eagerly
     settings.ENABLE_DEFERRED_PACKET_PARSING = bool(seq_seed % 2)
     ctx.count("sequences_deferred_parsing" if seq_seed % 2 else "sequences_eager_parsing")
+    # the proxy may be told to consult the viewers' on-disk object caches when a region says hello (off by default): whatever
+    # state those files are in, that is the proxy's business and not a reason to lose the simulator's datagram
+    import os
+    old_home = os.environ.get("HOME")
+    variant = None
+    if (seq_seed // 2) % 3 == 0:
+        variant = VOCACHE_VARIANTS[(seq_seed // 6) % len(VOCACHE_VARIANTS)]
+        settings.USE_VIEWER_OBJECT_CACHE = True
+        os.environ["HOME"] = vocache_home(variant)
+        ctx.count("sequences_with_viewer_object_cache")
+        ctx.cover("viewer_object_cache_states", variant)
     rig = Rig(settings=settings)
     try:
-        _run_sequence(ctx, rng, rig, seq_seed, same_ip)
+        _run_sequence(ctx, rng, rig, seq_seed, same_ip, variant)
     finally:
         rig.close()
+        if variant is not None:
+            if old_home is None:
+                os.environ.pop("HOME", None)
+            else:
+                os.environ["HOME"] = old_home
 
 
-def _run_sequence(ctx, rng, rig, seq_seed, same_ip):
+def _run_sequence(ctx, rng, rig, seq_seed, same_ip, vocache=None):
     templates = gen_msg.all_templates()
     if same_ip:
         ctx.count("same_ip_sequences")
@@ -227,17 +304,19 @@ def _run_sequence(ctx, rng, rig, seq_seed, same_ip):
         sess.message_handler.subscribe("*", lambda m: DISPATCHED.append(m.name) and None)
         for r in sess.regions:
             r.message_handler.subscribe("*", lambda m: DISPATCHED.append(m.name) and None)
-    wit_base = {"sequence_seed": seq_seed, "same_ip": same_ip}
+    wit_base = {"sequence_seed": seq_seed, "same_ip": same_ip, "viewer_object_cache": vocache}
     history = []
     last_was_garbage = False
     n_events = rng.randint(120, 300)
 
-    def deliver_valid(assoc_idx, circ, direction_in, prepared_name=None):
+    def deliver_valid(assoc_idx, circ, direction_in, prepared_name=None, only=None):
         nonlocal last_was_garbage
         a = assocs[assoc_idx]
         pid = circ.in_id if direction_in else circ.out_id
         if prepared_name is None:
-            name, data, msg = make_valid(rng, templates, direction_in, pid, ctx)
+            name, data, msg = make_valid(rng, templates, direction_in, pid, ctx, only=only)
+            if name == "RegionHandshake" and vocache:
+                ctx.count("region_handshakes_with_viewer_object_cache_enabled")
         else:
             # a message with a side effect on the circuit (CloseCircuit / DisableSimulator): the circuit is open when it
             # arrives, so it has to be forwarded like any other datagram
@@ -301,6 +380,10 @@ def _run_sequence(ctx, rng, rig, seq_seed, same_ip):
         if payload == data:
             ctx.count("byte_identical")
         ctx.count("valid_in_delivered" if direction_in else "valid_out_delivered")
+        if vocache and name == "RegionHandshake":
+            for r in sessions[circ.sess_idx].regions:
+                if r.circuit_addr == circ.addr and r.objects.cache_loaded:
+                    ctx.count("viewer_object_cache_consulted_at_region_hello")
         if circ.slot > 0:
             ctx.count("multi_region_deliveries")
         ctx.cover("templates", name)
@@ -406,6 +489,33 @@ def _run_sequence(ctx, rng, rig, seq_seed, same_ip):
         if snapshot(rig, assocs) != snap_before:
             ctx.violation("garbage-changed-state:presession", "pre-session traffic changed state", dict(wit_base))
 
+    # ... and from the other side: the simulator address is known to that association by now (the viewer has sent to it), so
+    # datagrams from it are attributed to the association - which still has no session. Whatever they say (including a
+    # UseCircuitCode naming either pending session) they are discarded and leave nothing behind: the owner claims it below.
+    for _ in range(rng.randint(0, 3)):
+        a = assocs[1]
+        snap_before = snapshot(rig, assocs)
+        before = len(rig.sendlog)
+        what = rng.choice(["ucc0", "ucc1", "ucc1", "valid", "unknown-session"])
+        if what == "valid":
+            _, data, _ = make_valid(rng, templates, True, 1)
+        elif what == "unknown-session":
+            data = use_circuit_code(sessions[1], 1)
+            data = data.replace(sessions[1].id.bytes, bytes(rng.getrandbits(8) for _ in range(16)))
+        else:
+            data = use_circuit_code(sessions[int(what[-1])], 1)
+        a.from_sim(circuits[3].addr, data)
+        ctx.count("discard_presession_from_sim_side")
+        ctx.count("discard_presession_from_sim_side:" + what)
+        ctx.count("garbage_datagrams")
+        if rig.sendlog[before:]:
+            ctx.violation("garbage-forwarded:presession", "traffic before the circuit was opened was forwarded",
+                          dict(wit_base, side="sim", what=what))
+        if snapshot(rig, assocs) != snap_before:
+            ctx.violation("garbage-changed-state:presession", "pre-session traffic changed state",
+                          dict(wit_base, side="sim", what=what, before=repr(snap_before)[:300], after=repr(snapshot(rig, assocs))[:300]))
+            return
+
     def open_circuit(circ):
         a = assocs[circ.sess_idx]
         data = use_circuit_code(sessions[circ.sess_idx], circ.out_id)
@@ -464,6 +574,11 @@ def _run_sequence(ctx, rng, rig, seq_seed, same_ip):
                 open_circuit(circuits[0])
                 continue
             c = rng.choice(opened)
+            if vocache and not getattr(c, "said_hello", False) and rng.random() < 0.3:
+                # the region's hello (the first one is what makes the proxy look at the cache files)
+                c.said_hello = True
+                deliver_valid(c.sess_idx, c, True, only="RegionHandshake")
+                continue
             deliver_valid(c.sess_idx, c, rng.random() < 0.5)
         # the liveness of every circuit the model holds open / closed must match (other regions undisturbed)
         for c in circuits:
